@@ -9,7 +9,7 @@
      ctx      = (cf_mode ((sing plur def) ...))
      extra    = ((body lres-value) ...)        evaluator oracle entries
    No proofs here. *)
-From FendV Require Import Base.Prelude Units.Defs Units.Algebra Units.Lookup Units.Index Units.Table.
+From FendV Require Import Base.Prelude Units.Defs Units.Algebra Units.Lookup Units.Index Units.Table Units.Dim.
 From Coq Require Import QArith.
 Close Scope Q_scope.
 Open Scope N_scope.
@@ -134,6 +134,36 @@ Definition as_extra (s : sx) : option (list (str * lres value)) :=
 
 Definition res_to_lres {A} (r : res A) : lres A := of_res r.
 
+(* uexpr = ("num" q) | ("name" str) | ("mul" a b) | ("div" a b) | ("pow" a q) | ("neg" a)
+         | ("add" a b) | ("sub" a b) | ("conv" a b) | ("fn" a);  fuel = size of the request *)
+Fixpoint as_uexpr (fuel : nat) (s : sx) : option uexpr :=
+  match fuel with
+  | O => None
+  | S f =>
+    match s with
+    | XL [XS t; a] =>
+      if opeq t "num" then option_map UNum (as_q a)
+      else if opeq t "name" then option_map UName (as_NL a)
+      else if opeq t "neg" then option_map UNeg (as_uexpr f a)
+      else if opeq t "fn" then option_map UFn (as_uexpr f a)
+      else None
+    | XL [XS t; a; b] =>
+      if opeq t "pow" then match as_uexpr f a, as_q b with Some a, Some q => Some (UPow a q) | _, _ => None end
+      else
+        match as_uexpr f a, as_uexpr f b with
+        | Some a, Some b =>
+          if opeq t "mul" then Some (UMul a b)
+          else if opeq t "div" then Some (UDiv a b)
+          else if opeq t "add" then Some (UAdd a b)
+          else if opeq t "sub" then Some (USub a b)
+          else if opeq t "conv" then Some (UConv a b)
+          else None
+        | _, _ => None
+        end
+    | _ => None
+    end
+  end.
+
 Definition run_units : dispatcher := fun op args =>
   if opeq op "builtin-query" then
     match args with
@@ -214,6 +244,16 @@ Definition run_units : dispatcher := fun op args =>
                  else if opeq name "convert" then v_convert_to a b
                  else Err EParse))
       | _, _ => Some sx_bad
+      end
+    | _ => Some sx_bad
+    end
+  else if opeq op "meval" then
+    (* (meval depth-bound expr) -> (result unmixed_tree) *)
+    match args with
+    | [XA d; e] =>
+      match as_uexpr (Z.to_nat d) e with
+      | Some e => Some (XL [sx_res sx_value (meval model_resolve e); sx_bool (unmixed_tree model_resolve e)])
+      | None => Some sx_bad
       end
     | _ => Some sx_bad
     end
